@@ -14,8 +14,10 @@ use serde_json::{json, Value};
 pub const UNIT_M: f64 = 0.05;
 const TOL: f64 = 1e-9;
 
-pub fn lattice_params(p: &Value) -> Parameters {
-    let g = |k: &str| p[k].as_i64().unwrap() as f64 * UNIT_M;
+pub fn lattice_params(p: &Value) -> Parameters { lattice_params_unit(p, UNIT_M) }
+
+pub fn lattice_params_unit(p: &Value, unit: f64) -> Parameters {
+    let g = |k: &str| p[k].as_i64().unwrap() as f64 * unit;
     robots::params(g("a1"), g("a2"), g("b"), g("c1"), g("c2"), g("c3"), g("c4"))
 }
 
@@ -249,5 +251,54 @@ pub fn record(output: &str) {
             }
         }
     }
+    out.finish();
+}
+
+/// B1 for C01: exact poses of singular / boundary lattice configurations (wrist straight, arm stretched or folded,
+/// wrist centre on the J1 axis, and their combinations; lengths in two units, one of them exactly representable):
+/// whatever comes back from the four entry points is finite and reproduces the exact pose; nothing is demanded to
+/// come back (on the boundary the closed form legitimately loses solutions to rounding).
+pub fn replay_edge(input: &str, output: &str) {
+    quiet_panics();
+    let lines = read_ndjson(input);
+    let mut out = Out::create(output);
+    let mut evals = 0u64;
+    let mut nontrivial = 0u64;
+    let mut r = rng(606);
+    for (id, line) in lines.iter().enumerate() {
+        let e = ivec(&line["e"]);
+        for unit in [0.05, 0.0625] {
+            let mut p = lattice_params_unit(&line["p"], unit);
+            if p.c3 <= 0.0 { continue; }
+            if id % 3 == 1 { p = robots::convention(p, (id * 7) % 64, "quarter", &mut r); }
+            if id % 3 == 2 { p = robots::convention(p, (id * 11) % 64, "random", &mut r); }
+            let q = joints_for(&p, &e, &[0; 6]);
+            let m = crate::solver::margins(&p, &q);
+            if crate::solver::nonsingular(&m) { continue; }
+            let kind = format!("{}{}{}", if m.wrist <= 0.05 { "wrist" } else { "" }, if m.elbow <= 0.05 { "+elbow" } else { "" }, if m.shoulder <= 0.05 { "+shoulder" } else { "" });
+            let want = lattice::iso(&line["links"][5], unit);
+            let pose = want.to_na();
+            let robot = OPWKinematics::new(p);
+            for entry in ["inverse", "inverse_continuing", "inverse_5dof", "inverse_continuing_5dof"] {
+                let Some(sols) = crate::solver::call(&robot, entry, &pose, &q, q[5]) else {
+                    out.put(json!({"sig": format!("latticeedge:panic:{}", entry), "detail": format!("e={:?} unit={}", e, unit)}));
+                    continue;
+                };
+                evals += 1;
+                if !sols.is_empty() { nontrivial += 1; }
+                let five = entry.contains("5dof");
+                let bad = sols.iter().any(|s| {
+                    if !s.iter().all(|x| x.is_finite()) { return true; }
+                    let b = oracle::fk(&p, s);
+                    b.dpos(&want) > 1.001e-6 || if five { b.daxis(&want) > 1.001e-6 } else { b.drot(&want) > 1.001e-6 }
+                });
+                if bad {
+                    let ctx = json!({"params": robots::params_json(&p), "q": q, "e": e, "unit": unit, "answers": sols});
+                    out.put(json!({"sig": format!("latticeedge:answer-misses-exact-pose:{}:{}", kind.trim_start_matches('+'), entry), "detail": ctx.to_string(), "data": ctx}));
+                }
+            }
+        }
+    }
+    out.put(json!({"stats": {"lines": lines.len(), "evaluations": evals, "nontrivial": nontrivial}}));
     out.finish();
 }
